@@ -29,6 +29,20 @@ reached on an instance that a front end keeps alive and evaluates between the us
   `depends on`, prompt `if`, enclosing `if`, enclosing menu `depends on` / `visible if`, `if` inside a menu, two
   levels) by A / !A / A && B / a member of another choice, for plain, defaulted, named, twice-defined, nested and paired
   choices and members with their own conditions -- evaluate while hidden, show, evaluate, pick, evaluate.
+
+Two further small families:
+
+* member_select / member_imply -- an option OUTSIDE the choice has `select M2` / `imply M2` on a member (plain, with a
+  default on another member, hidden choice; the selecting option prompted, promptless `default y`, thorough also
+  conditional `if A`, defined after the choice, itself a member of another choice).  language.rst defines select/imply
+  for (menu)configs only; the library accepts the tree and its own diagnostic says "select/imply has no effect on choice
+  symbols", so the reference ignores the reverse dependency and the statement must hold unchanged.
+* written_* -- the load alphabet is made of files THE TOOL WROTE (write_config of the real library) for other
+  configurations of the same tree: untouched (members appear only as `# default:` entries), a member picked (user
+  entries), the condition symbol switched, both; plus files that do not mention the choice at all.  Loaded replacing and
+  merging after picks, under the default KCONFIG_DEFAULTS_POLICY and under `kconfig` (tool-written files are merged only
+  under `kconfig`, see written_loads).  Reference: a default-marked entry assigns nothing (defaults.rst; refsem.RefState
+  skips it), so a replacing load of such a file leaves no pick behind and a merging one keeps the pick there was.
 """
 
 from __future__ import annotations
@@ -56,12 +70,23 @@ RULE = (
     "subset) of {initially, after op 1..n-1}, per READS kind {values, full; thorough + shown, choices, outputs}. A second BFS "
     "per program and READS kind (one load file per effect class; also the alphabet of the 'hidden' families) evaluates before "
     "the first and after every operation and merges states on (user values, user selections, content of every memo cell). "
-    "distinct_nontrivial = distinct (program, user state) pairs in which some choice has a hidden member, a user pick, or is invisible."
+    "Family member_select/member_imply: `select`/`imply` of a member from an option outside the choice (ignored per the library's "
+    "diagnostic). Families written_*: 4 (thorough 8) trees x KCONFIG_DEFAULTS_POLICY {default, kconfig}; alphabet set(member,y), "
+    "set(condition symbol,y|n), reset(choice), load {replacing, merging} of {files write_config() of the real library produced for "
+    "the configurations untouched / last member picked / first member picked / switch on / switch on + pick / switch off; files "
+    "silent about the choice: empty, switch y, switch n} (tool-written files merged only under policy kconfig); states merged on "
+    "user values + selections + Inst.user_state() (what the file said, default-marked, injected), values/outputs oracle on every "
+    "transition. distinct_nontrivial = distinct (program, user state) pairs in which some choice has a hidden member, a user pick, or is invisible."
 )
 ASSUMPTIONS = [
     "the user's pick is the last member set to y since the last reset / replacing load (mck/refsem.RefState)",
     "Symbol.unset_value on members is not in the alphabet (UI-level reset is what users have)",
-    "loaded files carry no default-marked entries (C08 owns those)",
+    "loaded files carry no default-marked entries (C08 owns those), except in the written_* families, where every file with such "
+    "entries was written by the library itself for a configuration of the SAME tree; there a default-marked entry assigns nothing "
+    "(docs/en/kconfiglib/defaults.rst), and merging such a file into a configuration it was not written for is only explored "
+    "under KCONFIG_DEFAULTS_POLICY=kconfig (documented to ignore a stored default that differs from the Kconfig one)",
+    "`select` / `imply` whose target is a choice member is ignored (language.rst is silent; the library accepts the tree and notes "
+    "'select/imply has no effect on choice symbols')",
     "no per-option / per-choice state influences values beyond the cells the live search merges on (SYM_CELLS / CHOICE_CELLS: "
     "user values, selections, default-injection flags, every memo cell; NOT the load/report bookkeeping _was_set, "
     "_present_in_current_sdkconfig, _sdkconfig_value, _user_source, _old_val -- the fresh search makes the same assumption); "
@@ -163,8 +188,105 @@ def hidden_programs(tier: str) -> Iterator[Tuple[str, Program]]:
         yield ("hidden_two_levels", Program(children=[A("A"), A("B"), node]))
 
 
+def selected_member_programs(tier: str) -> Iterator[Tuple[str, Program]]:
+    """`select` / `imply` of a choice member from OUTSIDE the choice.  docs/en/kconfiglib/language.rst gives select/imply
+    a meaning for (menu)configs only; the library's own diagnostic (_check_choice_sanity, a note, not an error) says
+    "select/imply has no effect on choice symbols" -- so the tree is accepted, the reverse dependency is ignored and
+    the statement's "exactly one member y / none in an invisible choice" must hold whatever the selecting option is."""
+    kws = ("select", "imply")
+    shapes = ("plain", "dfl", "hidden")
+    conds = (None,) if tier == "quick" else (None, S("A"))
+    poss = ("before",) if tier == "quick" else ("before", "after")
+
+    def choice_of(shape):
+        if shape == "plain":
+            return [], Choice(prompt="c", children=[M(1), M(2), M(3)])
+        if shape == "dfl":
+            return [], Choice(name="CH", prompt="c", defaults=[("M3", None)], children=[M(1), M(2), M(3)])
+        return [A("G")], hide("depends", S("G"), Choice(prompt="c", defaults=[("M1", None)], children=[M(1), M(2), M(3)]))
+
+    for kw, shape, cond, pos in itertools.product(kws, shapes, conds, poss):
+        pre, ch = choice_of(shape)
+        t = Cfg("T", "bool", prompt="t")
+        (t.selects if kw == "select" else t.implies).append(("M2", cond))
+        kids = ([A("A")] if cond is not None else []) + pre + ([t, ch] if pos == "before" else [ch, t])
+        yield ("member_" + kw, Program(children=kids))
+    for kw in kws:
+        # the selecting option has no prompt and is y by default: the reverse dependency is on in EVERY configuration
+        t = Cfg("T", "bool", defaults=[(L("y"), None)])
+        (t.selects if kw == "select" else t.implies).append(("M2", None))
+        yield ("member_" + kw, Program(children=[A("G"), t, hide("depends", S("G"), Choice(prompt="c", children=[M(1), M(2)]))]))
+        if tier != "quick":
+            # ... is itself a member of another choice
+            p2 = Cfg("P2", "bool", prompt="p2")
+            (p2.selects if kw == "select" else p2.implies).append(("M2", None))
+            yield ("member_" + kw, Program(children=[Choice(prompt="c", defaults=[("M1", None)], children=[M(1), M(2)]),
+                                                     Choice(prompt="p", children=[Cfg("P1", "bool", prompt="p1"), p2])]))
+
+
+def written_programs(tier: str) -> Iterator[Tuple[str, Program]]:
+    """the small family whose load alphabet is made of files THE TOOL WROTE for other configurations of the same tree
+    (see written_loads)"""
+    yield ("written_plain", Program(children=[Choice(prompt="c", children=[M(1), M(2)])]))
+    yield ("written_dfl", Program(children=[A("A"), Choice(name="CH", prompt="c", defaults=[("M3", S("A")), ("M2", None)], children=[M(1), M(2), M(3)])]))
+    yield ("written_hidden", Program(children=[A("A"), hide("depends", S("A"), Choice(prompt="c", defaults=[("M2", None)], children=[M(1), M(2)]))]))
+    yield ("written_mcond", Program(children=[A("A"), Choice(prompt="c", defaults=[("M1", None)], children=[M(1, prompt_cond=S("A")), M(2), M(3)])]))
+    if tier == "quick":
+        return
+    yield ("written_hidden", Program(children=[A("A"), hide("menu_vis", Not(S("A")), Choice(prompt="c", children=[M(1), M(2)]))]))
+    yield ("written_by_member", Program(children=[
+        hide("if", S("P2"), Choice(prompt="c", defaults=[("M2", None)], children=[M(1), M(2)])),
+        Choice(prompt="p", children=[Cfg("P1", "bool", prompt="p1"), Cfg("P2", "bool", prompt="p2")]),
+    ]))
+    inner = Choice(prompt="inner", children=[Cfg("I1", "bool", prompt="i1"), Cfg("I2", "bool", prompt="i2")])
+    yield ("written_nested", Program(children=[Choice(prompt="outer", defaults=[("M2", None)], children=[M(1), M(2), inner])]))
+    yield ("written_twice", Program(children=[A("A"), Choice(name="CH", prompt="c", children=[M(1)]), Cfg("MID", "bool", prompt="mid"),
+                                              Choice(name="CH", prompt=None, defaults=[("M3", S("A"))], children=[M(2), M(3)])]))
+
+
+POLICIES = (None, "kconfig")
+
+
+def written_loads(files, model: refsem.Model, policy: Optional[str]) -> List[tuple]:
+    """load operations of the 'written' families.  Files: (a) what write_config() of the REAL library produces on a fresh
+    instance of the same tree in the configurations {untouched; last / first member picked; first condition symbol
+    switched on; switched on and last member picked; switched off} -- members appear as `# default:` entries in the
+    untouched ones and as user entries in the picked ones; (b) files that do not mention the choice at all (empty, only
+    the first condition symbol y / n).  Every file is loaded replacing and merging, except that the tool-written files
+    are merged only under KCONFIG_DEFAULTS_POLICY=kconfig: merged into a configuration they were not written for, a
+    default-marked entry may differ from the current Kconfig default, which that policy is documented to ignore, while
+    the default policy keeps the stored value (C08's subject)."""
+    members = [m for ci in model.choices for m in ci.members]
+    first = model.choices[0].members
+    others = [n for n in model.order if n not in members and model.syms[n].type == "bool" and any(d.prompt is not None for d in model.syms[n].defs)]
+    hs: List[tuple] = [(), (("set", first[-1], "y"),), (("set", first[0], "y"),)]
+    if others:
+        o = others[0]
+        hs += [(("set", o, "y"),), (("set", o, "y"), ("set", first[-1], "y")), (("set", o, "n"),)]
+    written = []
+    for h in hs:
+        inst = impl.replay_ops(files, h, policy=policy)
+        try:
+            written.append(inst.config_text())
+        except Exception as e:  # noqa: BLE001 -- the real writer raised: an observation, reported by the caller
+            raise impl.OpRaised(len(h), ("snap",), e) from e
+    written = list(dict.fromkeys(written))
+    silent = [""]
+    if others:
+        silent += [f"CONFIG_{others[0]}=y\n", f"# CONFIG_{others[0]} is not set\n"]
+    ops = []
+    for t in written:
+        ops.append(("load", t, True))
+        if policy == "kconfig":
+            ops.append(("load", t, False))
+    for t in silent:
+        ops.append(("load", t, True))
+        ops.append(("load", t, False))
+    return ops
+
+
 def programs(tier: str) -> Iterator[Tuple[str, Program]]:
-    mconds2 = list(itertools.product(("none", "A", "!A", "B"), repeat=2))
+    mconds2 =list(itertools.product(("none", "A", "!A", "B"), repeat=2))
     cvis = [("none", None), ("prompt", "A"), ("depends", "A"), ("depends", "B")]
     dfls = [[], [("M2", "none")], [("M2", "A")], [("M2", "B"), ("M1", "none")], [("M1", "!A"), ("M2", "none")]]
     for (c1, c2), (vk, vc), dfl in itertools.product(mconds2, cvis, dfls):
@@ -216,6 +338,8 @@ def programs(tier: str) -> Iterator[Tuple[str, Program]]:
         yield ("in_menu_" + w, Program(children=[A("A"), menu]))
     # choices hidden from outside, in every way
     yield from hidden_programs(tier)
+    # a member that an option outside the choice selects / implies
+    yield from selected_member_programs(tier)
 
 
 def load_files(members: List[str], others: List[str]) -> List[str]:
@@ -311,13 +435,26 @@ def items(tier: str, seed: int):
         out.append({"family": f, "files": files, "prog": p, "depth": depth, "phase": "fresh", "reads": reads_of(tier), "tier": tier})
         for rk in reads_of(tier):
             out.append({"family": f, "files": files, "prog": p, "depth": depth, "phase": "live", "reads": (rk,), "tier": tier})
+    for (f, p), pol in itertools.product(written_programs(tier), POLICIES):
+        files = kgen.render(p)
+        out.append({"family": f, "files": files, "prog": p, "depth": depth, "phase": "fresh", "reads": reads_of(tier), "tier": tier, "policy": pol})
+        for rk in reads_of(tier):
+            out.append({"family": f, "files": files, "prog": p, "depth": depth, "phase": "live", "reads": (rk,), "tier": tier, "policy": pol})
     return out
 
 
-def op_menu(model: refsem.Model, live: bool = False) -> List[tuple]:
+def op_menu(model: refsem.Model, live: bool = False, loads: Optional[List[tuple]] = None) -> List[tuple]:
+    """loads: the load operations to use instead of the hand-written files (the 'written' families; their alphabet has
+    no set(member, n) / reset(member) -- the other families own those)"""
     ops: List[tuple] = []
     members = [m for ci in model.choices for m in ci.members]
     others = [n for n in model.order if n not in members and model.syms[n].type == "bool" and any(d.prompt is not None for d in model.syms[n].defs)]
+    if loads is not None:
+        ops += [("set", m, "y") for m in members]
+        for o in others:
+            ops += [("set", o, "y"), ("set", o, "n")]
+        ops += [("resetc", ci.idx) for ci in model.choices]
+        return ops + list(loads)
     for m in members:
         ops.append(("set", m, "y"))
         ops.append(("set", m, "n"))
@@ -362,9 +499,9 @@ def outputs_members(inst) -> Dict[str, set]:
     return {"header": in_hdr, "cmake": in_cm, "json": in_js, "sdkconfig": in_cfg}
 
 
-def replay_live(files, h, rk: str, points) -> "impl.Inst":
+def replay_live(files, h, rk: str, points, policy: Optional[str] = None) -> "impl.Inst":
     """the history on ONE instance that is evaluated (READS kind rk) just before every operation whose index is in `points`"""
-    inst = impl.Inst(files)
+    inst = impl.Inst(files, policy=policy)
     rd = READS[rk]
     for i, op in enumerate(h):
         if i in points:
@@ -415,6 +552,8 @@ def explore_item(item, r: common.Result, only_history=None, only_reads=None):
     files, prog, fam = item["files"], item["prog"], item["family"]
     phase = item.get("phase", "fresh")
     rkinds = tuple(item.get("reads", ()))
+    policy = item.get("policy")
+    written = fam.startswith("written_")
     model = refsem.build(prog)
     ptext = files["Kconfig"]
 
@@ -427,6 +566,8 @@ def explore_item(item, r: common.Result, only_history=None, only_reads=None):
 
     def case_of(h, reads=None):
         c = {"family": fam, "program": ptext, "files": files, "history": [list(o) for o in h], "depth": item["depth"]}
+        if policy is not None:
+            c["policy"] = policy
         if reads is not None:
             c["reads"] = {"kind": reads[0], "points": list(reads[1])}
         return c
@@ -451,7 +592,7 @@ def explore_item(item, r: common.Result, only_history=None, only_reads=None):
 
     def check_live_variant(h, rk, pts, rv=None):
         try:
-            live = replay_live(files, h, rk, pts)
+            live = replay_live(files, h, rk, pts, policy)
         except impl.OpRaised as e:
             raised(h, e, (rk, pts))
             return
@@ -521,19 +662,51 @@ def explore_item(item, r: common.Result, only_history=None, only_reads=None):
             check_live_variant(h, only_reads["kind"], tuple(only_reads["points"]))
             return None
         try:
-            check_fresh(h, impl.replay_ops(files, h))
+            check_fresh(h, impl.replay_ops(files, h, policy=policy))
         except impl.OpRaised as e:
             raised(h, e)
         return None
 
+    loads = None
+    if written:
+        try:
+            loads = written_loads(files, model, policy)
+        except impl.OpRaised as e:
+            raised((), e)
+            return explore.Stats()
+        r.count("written_load_ops", len(loads))
+
+    def on_raise(h, e):
+        if not isinstance(e, impl.OpRaised):
+            raise e
+        raised(h, e)
+
+    if phase == "fresh" and written:
+        # files with default-marked entries leave more behind than user values (what the file said, injected defaults), so
+        # states are merged on impl.Inst.user_state() as well, the values / selection / outputs oracle runs on EVERY
+        # transition, and the live variants on the first history reaching each state
+        ops = op_menu(model, loads=loads)
+        first_seen = set()
+
+        def canon_w(st):
+            return (canon(st), st.user_state())
+
+        def check_written(h, st):
+            key = canon_w(st)  # before the oracle reads
+            if key in first_seen:
+                check_on(h, st, "fresh", ref_eval(h), None)
+            else:
+                first_seen.add(key)
+                check_fresh(h, st)
+
+        st = explore.bfs(lambda h: impl.replay_ops(files, h, policy=policy), lambda h, s: ops, canon_w, check_written, item["depth"], on_raise=on_raise)
+        r.states += st.states
+        r.transitions += st.transitions
+        return st
+
     if phase == "fresh":
         # the hidden families are about showing / hiding; the load-file orders are exercised by the other families
         ops = op_menu(model, live=fam.startswith("hidden_"))
-
-        def on_raise(h, e):
-            if not isinstance(e, impl.OpRaised):
-                raise e
-            raised(h, e)
 
         # the key (all user values + all user selections) determines every value the oracle reads on a FRESH instance (no
         # default-marked loads in this alphabet, hence no injected defaults), so revisited states need not be re-checked
@@ -545,10 +718,13 @@ def explore_item(item, r: common.Result, only_history=None, only_reads=None):
     # live search: evaluated before the first and after every operation; merged on the complete instance state (taken
     # right after an evaluation, so in a correct implementation it is a function of the user state)
     rk = rkinds[0]
-    ops = op_menu(model, live=True)
+    ops = op_menu(model, live=True, loads=loads)
+
+    def live_key(s):
+        return (memo_key(s.k), s.user_state()) if written else memo_key(s.k)
 
     def build_live(h):
-        return replay_live(files, h, rk, range(len(h) + 1))
+        return replay_live(files, h, rk, range(len(h) + 1), policy)
 
     def check_live(h, st):
         check_on(h, st, "live:" + rk, ref_eval(h), (rk, tuple(range(len(h) + 1))))
@@ -558,7 +734,7 @@ def explore_item(item, r: common.Result, only_history=None, only_reads=None):
             raise e
         raised(h, e, (rk, tuple(range(len(h) + 1))))
 
-    st = explore.bfs(build_live, lambda h, s: ops, lambda s: memo_key(s.k), check_live, item["depth"], on_raise=on_raise_live, check_revisits=False)
+    st = explore.bfs(build_live, lambda h, s: ops, live_key, check_live, item["depth"], on_raise=on_raise_live, check_revisits=False)
     r.count("live_states", st.states)
     r.count("live_transitions", st.transitions)
     r.count("live_states_" + rk, st.states)
@@ -580,10 +756,11 @@ def run_item(item) -> common.Result:
 
 def replay(case) -> List[dict]:
     for tier in ("quick", "thorough"):
-        for f, p in programs(tier):
+        for f, p in itertools.chain(programs(tier), written_programs(tier)):
             if f == case["family"] and kgen.render(p)["Kconfig"] == case["program"]:
                 r = common.Result()
-                item = {"family": f, "files": case["files"], "prog": p, "depth": case["depth"], "phase": "fresh", "reads": reads_of("thorough")}
+                item = {"family": f, "files": case["files"], "prog": p, "depth": case["depth"], "phase": "fresh", "reads": reads_of("thorough"),
+                        "policy": case.get("policy")}
                 explore_item(item, r, only_history=case["history"], only_reads=case.get("reads"))
                 return r.viols
     raise SystemExit("replay: program not found")
